@@ -39,6 +39,8 @@ def build(h: history.History, rng: random.Random) -> Dict[str, Any]:
         h.observe(op, True)
     out = h.apply(("open_tx", 2))
     assert out["ok"], out
+    out = h.apply(("open_tx_sub",))         # + an open transaction with pre-built files in data/<partition>/
+    assert out["ok"], out
     protected = "metadata/manifests/manifest_9999_inflight.avro"
     marker = "metadata/inflight/manifest_9999_inflight.avro.inflight"
     orphans = ["data/orphan_old.parquet", "metadata/manifests/orphan_old.avro"]
@@ -365,11 +367,13 @@ class C07(Check):
     def _marker_payloads(self, case: Any, res: CaseResult) -> None:
         """damaged payload of the marker that protects an in-commit manifest / an open transaction's data file"""
         for pname, payload in MARKER_PAYLOADS:
-            for which in ("manifest_marker", "data_marker"):
+            for which in ("manifest_marker", "data_marker", "subdir_data_marker"):
                 def one(h: history.History, ip: Interposer, store: Any, rng: Any) -> None:
                     sc = build(h, rng)
                     if which == "manifest_marker":
                         target = sc["marker"]
+                    elif which == "subdir_data_marker":
+                        target = h.open_txs[1][0]._inflight_markers[0]
                     else:
                         target = h.open_txs[0][0]._inflight_markers[0]
                     self._write_raw(h, target, payload)
